@@ -169,6 +169,11 @@ def main():
             r = getattr(monitors, 'monitor_' + name)(ctx)
             mon_results.append(r)
             log(f'[{pid}] monitor {name}: {r["cases"]} cases, {len(r["failing"])} failing, {r["wall_s"]:.1f}s')
+        # a monitor whose harness cannot drive the code any more (it reaches into the library: fake random source, VM state
+        # factory, audit hook) no longer checks anything: that is a broken obligation, not a pass
+        mon_broken = [r for r in mon_results if r.get('harness_errors', 0) > max(3, r['cases'] // 10)]
+        for r in mon_broken:
+            log(f'[{pid}] monitor {r["name"]} could not run {r["harness_errors"]} of {r["cases"]} cases: {r.get("harness_error_sample")}')
         known = load_known(pid)
         failing = [f for r in mon_results for f in r['failing']]
         # functional properties: the model IS the reference (its theorems show it has the characteristics the property
@@ -203,12 +208,13 @@ def main():
                 json.dump({'property': pid, 'kind': 'failing-input', 'failing': new_failing[:20],
                            'broken_obligations': proof['broken'], 'disagreements': ctx['disagreements'][:10]}, fh, indent=1, default=str)
             lines.append(f'VIOLATION property={pid} replay={replay_path}')
-        elif proof['broken'] or corr_broken:
+        elif proof['broken'] or corr_broken or mon_broken:
             violations = 1
             with open(replay_path, 'w') as fh:
                 json.dump({'property': pid, 'kind': 'no-failing-input-found',
                            'no_longer_checks': [f'{b["kind"]}:{b["name"]}' for b in proof['broken']] +
-                                               [f'correspondence-slice:{r["name"]}' for r in corr_broken],
+                                               [f'correspondence-slice:{r["name"]}' for r in corr_broken] +
+                                               [f'monitor:{r["name"]} ({r["harness_errors"]} of {r["cases"]} cases could not be run: {r.get("harness_error_sample")})' for r in mon_broken],
                            'broken_obligations': proof['broken'],
                            'disagreements': ctx['disagreements'][:20]}, fh, indent=1, default=str)
             lines.append(f'VIOLATION property={pid} replay={replay_path} no-failing-input-found')
